@@ -22,6 +22,7 @@ Step(e) ==
     [] e.ev = "exc" -> MonExc(mon, e)
     [] e.ev = "stuck" -> MonStuck(mon, e)
     [] e.ev = "stall" -> MonStall(mon, e)
+    [] e.ev = "abandon" -> MonAbandon(mon, e)
     [] OTHER -> mon
 
 Next ==
